@@ -176,16 +176,19 @@ structure SunParsed where
 
 def roundsEq : Bytes := [114, 111, 117, 110, 100, 115, 61]   -- "rounds="
 
+/-- the salt part of `crypt_sunmd5_rn`'s parser, from index `p` on: the run of alphabet characters, the `$`/NUL that must
+    follow it, the Solaris quirk that includes a `$` followed by `$` or NUL in the salt, and the space check -/
+def sunStep2 (setting : Bytes) (nrounds p : Nat) : Except Errno SunParsed :=
+  let p := p + strspn (setting.drop p) Gen.ascii64
+  if cat setting p ≠ 0 ∧ cat setting p ≠ 36 then .error .EINVAL else
+  let p := if cat setting p == 36 && (cat setting (p + 1) == 36 || cat setting (p + 1) == 0) then p + 1 else p
+  if Gen.CRYPT_OUTPUT_SIZE < p + Gen.SUNMD5_BARE_OUTPUT_LEN + 2 then .error .ERANGE else
+  .ok { nrounds := nrounds, saltlen := p }
+
 def parseSunmd5 (setting : Bytes) : Except Errno SunParsed :=
   let pl := Gen.SUNMD5_PREFIX_LEN
   if ¬ hasPrefix setting Gen.SUNMD5_PREFIX ∨ (cat setting pl ≠ 36 ∧ cat setting pl ≠ 44) then .error .EINVAL else
   let p0 := pl + 1
-  let step2 (nrounds p : Nat) : Except Errno SunParsed :=
-    let p := p + strspn (setting.drop p) Gen.ascii64
-    if cat setting p ≠ 0 ∧ cat setting p ≠ 36 then .error .EINVAL else
-    let p := if cat setting p == 36 && (cat setting (p + 1) == 36 || cat setting (p + 1) == 0) then p + 1 else p
-    if Gen.CRYPT_OUTPUT_SIZE < p + Gen.SUNMD5_BARE_OUTPUT_LEN + 2 then .error .ERANGE else
-    .ok { nrounds := nrounds, saltlen := p }
   if hasPrefix (setting.drop p0) roundsEq then
     let p1 := p0 + roundsEq.length
     let c0 := cat setting p1
@@ -194,8 +197,8 @@ def parseSunmd5 (setting : Bytes) : Except Errno SunParsed :=
     if r.consumed = 0 ∨ r.value > Gen.SUNMD5_MAX_ROUNDS ∨ r.erange then .error .EINVAL else
     let p2 := p1 + r.consumed
     if cat setting p2 ≠ 36 then .error .EINVAL else
-    step2 ((4096 + r.value) % 2 ^ 32) (p2 + 1)
-  else step2 4096 p0
+    sunStep2 setting ((4096 + r.value) % 2 ^ 32) (p2 + 1)
+  else sunStep2 setting 4096 p0
 
 def cryptSunmd5 (D : Digests) (phrase setting : Bytes) : CRes :=
   match parseSunmd5 setting with
